@@ -13,7 +13,7 @@ THEOREMS = ["Econf.C14_split_join", "Econf.C14_split_total", "Econf.C14_ext_comm
 SHRINK = False
 RULE = ("every field kind (key, value, continuation line, section, comment before, comment after, file name, directory name, option "
         "string, econftool --delimiters) x lengths {1, BUFSIZ-2..BUFSIZ+2, 2*BUFSIZ, 64Ki, 1Mi (thorough)} and {NAME_MAX-1, NAME_MAX}, "
-        "{PATH_MAX-2..PATH_MAX+2} for names and paths (read), NAME_MAX-6..NAME_MAX and PATH_MAX-8..PATH_MAX-1 (written and read back) x every API that copies the field (string and extended getter, merge, write, "
+        "{PATH_MAX-2..PATH_MAX+2} for names and paths (read), drop-ins of two layers whose names of NAME_MAX-1 / NAME_MAX bytes differ in one byte (with and without suffix), NAME_MAX-6..NAME_MAX and PATH_MAX-8..PATH_MAX-1 (written and read back) x every API that copies the field (string and extended getter, merge, write, "
         "re-read, error location); lengths and FNV hashes of what comes back are compared with what went in; distinct by (field, length)")
 BUFSIZ = 8192
 NAME_MAX = 255
@@ -80,6 +80,20 @@ def name_scenario(sid, kind, n):
         s.add("PATH", 0)
         s.add("RAW", 0)
         s.meta["path"] = b"/etc/p/cfg.conf.d/" + name
+    elif kind in ("twins", "twins_nosuffix"):
+        # two drop-ins of different layers whose names of n bytes differ in one byte only (the last one of the name, or the
+        # last one before the suffix): different names, nobody masks anybody; a third name is in both layers and is masked
+        if kind == "twins":
+            a, b, c, sfx, dd = b"x" * (n - 6) + b"a.conf", b"x" * (n - 6) + b"b.conf", b"y" * (n - 5) + b".conf", b"conf", b"cfg.conf.d"
+        else:
+            a, b, c, sfx, dd = b"x" * (n - 1) + b"a", b"x" * (n - 1) + b"b", b"y" * n, b"", b"cfg.d"
+        s.file(b"/usr/etc/" + dd + b"/" + a, b"ka=1\n")
+        s.file(b"/etc/" + dd + b"/" + b, b"kb=2\n")
+        s.file(b"/usr/etc/" + dd + b"/" + c, b"kc=low\nkd=4\n")
+        s.file(b"/etc/" + dd + b"/" + c, b"kc=high\n")
+        s.add("RD", 0, h(b"/usr/etc"), h(b"/etc"), h(b"cfg"), h(sfx), h(b"="), h(b"#"))
+        for k in (b"ka", b"kb", b"kc", b"kd"):
+            s.add("GET", 0, "str", h(None), h(k))
     elif kind == "dirname":
         d = b"d" * n
         s.file(b"/" + d + b"/cfg.conf", b"k=v\n")
@@ -156,6 +170,9 @@ def scenarios(tier, rng):
     for n in (NAME_MAX - 1, NAME_MAX):
         out.append(name_scenario("fn_%d" % n, "filename", n))
         out.append(name_scenario("dn_%d" % n, "dirname", n))
+    for n in (NAME_MAX - 1, NAME_MAX):
+        out.append(name_scenario("tw_%d" % n, "twins", n))
+        out.append(name_scenario("tn_%d" % n, "twins_nosuffix", n))
     for n in range(PATH_MAX - 3, PATH_MAX + 3):
         out.append(name_scenario("p_%d" % n, "path", n))
     for n in range(NAME_MAX - 6, NAME_MAX + 1):
@@ -217,6 +234,11 @@ def oracle(s, lines):
             return "%s of %d bytes: %r" % (f, n, lines[0])
         if lines[1] != "path " + h(m["path"]):
             return "%s of %d bytes: path %r" % (f, n, lines[1][:80])
+        return None
+    if f in ("twins", "twins_nosuffix"):
+        want = ["rd E0 obj", "get E0 " + h(b"1"), "get E0 " + h(b"2"), "get E0 " + h(b"high"), "get E5 "]
+        if lines[:5] != want:
+            return "drop-ins with names of %d bytes that differ in one byte: %r, expected %r" % (n, lines[:5], want)
         return None
     if f == "layerdir":
         want = ["rc E0 obj", "get E0 " + summ(100, 0x76)]
